@@ -121,7 +121,11 @@ def ckOp (cap : Option Nat) (hasHandler : Bool) (s : CkSt) (op : HOp) (o : HObs)
   | .drop h =>
     if h ∉ s.live then pure s else
     ckEvents hasHandler none { s with live := s.live.erase h } o.evs false
-  | .flush _ => ckEvents hasHandler none s o.evs false
+  | .flush h =>
+    if h ∈ s.live ∧ !o.evs.contains .flushed then
+      viol "C06" "flush through the queuing wrapper did not reach the wrapped sink"
+    else if h ∈ s.live ∧ o.res ≠ .ok none then viol "C06" "flush through the queuing wrapper did not return the wrapped sink's answer"
+    else ckEvents hasHandler none s o.evs false
   | .sinkStats h =>
     if h ∉ s.live then pure s else
     -- the gated wrapped sink reports fixed figures: the queuing sink must pass them through unchanged
